@@ -47,9 +47,9 @@ func AbsOf(b bool) Abs {
 type ExitKind int
 
 const (
-	ExitReturn ExitKind = iota // a Return instruction (normal exit)
-	ExitCut                    // a no-return call or panic
-	ExitRevisit                // came back to the start point (loops)
+	ExitReturn  ExitKind = iota // a Return instruction (normal exit)
+	ExitCut                     // a no-return call or panic
+	ExitRevisit                 // came back to the start point (loops)
 )
 
 type PathExit struct {
